@@ -14,6 +14,9 @@ func runC14(c *Ctx, r *Report) {
 	r.Rule("C14.R5", "reader capacity: the line reader of AutoLoad imposes no limit on line length (a bufio.Scanner has Buffer called before every Scan with a constant maximum of at least 2^31-1) and consults Scanner.Err() on every path from the scan loop to a return")
 	r.Rule("C14.R4", "constants and built-in identifiers are not saved: every write of SaveGlobals is confined to the false edge of isConstantAndExtraIdentifier(key)")
 
+	r.Rule("C14.R7", "auto-save sees every change: every write or delete on an Environment's store map (other than installing a Reference) is accompanied, on every path through it, by an increment of numSet of the same environment under its depth==0 test")
+	c.checkChangeCounter(r, "C14.R7")
+
 	sg := c.SSAFn(c.Fn("object", "Environment.SaveGlobals"))
 	sname := ssaFuncName(sg)
 	// ---- R1 ----
